@@ -27,6 +27,9 @@ CLAIMED = {
  "C08": ("Hypothesis property-based testing; oracle = reference model derived from the declared field NAMES (marker values in stride patterns), packed registers unpacked by byte, loop-count relations between kernel registers and stream step counts",
          "Generated accelerator instances (alu with generated streamer configurations, gemmx default and from_config geometries, xdma extension subsets, hwpe) and streaming regions with pairwise distinct marker bounds/strides are run through the real convert-linalg-to-accfg pass with the instance registered; the emitted setup must verify, name exactly the declared fields, and every named field must hold the value with that meaning. Exploration level.",
          TRUST + " Register meanings come from field names and code comments (no RTL offline). gemmx patterns are generated in the 5-pattern output-stationary shape set_stride_patterns produces. Known findings (hwpe name swap expected by upstream's lit test, xdma enabled_chan without mask option, rescale-only per-channel values) are classified by narrow signatures.", "4/C08"),
+ "C10": ("Hypothesis property-based testing + exhaustive enumeration of small layouts; oracle = one reference address function written from the TSL docstrings, against which every view (affine map, all_values/overlap/dense, bound/step ops interpreted, text round trip, from_strides/canonicalize, common contiguous block, subview pointer arithmetic) is compared",
+         "Seven sub-properties, each comparing one view of a tiled-strided layout with the single reference addr(idx) on generated layouts (rank <= 4, depth <= 3, dynamic entries, offsets) and on the complete small-layout grid. Exploration level with an exhaustive sub-space.",
+         TRUST + " The reference address function and the dynamic-step rule follow snaxc/ir/tsl/README.md and the class docstrings.", "4/C10"),
  "C16": ("Hypothesis property-based testing; oracle = exact rational row-space test / re-derived post-conditions on every yielded schedule; matcher compared with the exact test on constructed matching and perturbed pairs; small pairs exhaustively (thorough)",
          "Every schedule yielded by scheduler_backtrack on generated and realistic (gemmx/alu/xdma-like) template cases is checked for template fit, bounds, and the requested extra constraints, all in exact arithmetic independent of the SVD-based predicate under test; the matcher itself is compared with the exact decision. Exploration level with an exhaustive small sub-space.",
          TRUST + " Entries restricted to -16..16 and dims <= 5 so float artefacts of the SVD test on inputs no caller produces are not flagged.", "4/C16"),
